@@ -1,142 +1,204 @@
-import Tahoe.Immutable.UploadDecision
-/-! Invariants of the upload decision model (helper lemmas for C06). -/
+import Tahoe.Immutable.UploadDecisionRel
+/-! Invariants of the upload decision model (helper lemmas for C06): bookkeeping (`Core`), layout (`Lay`),
+the verdict invariants `Inv` / `Failed`, and their preservation by every phase and by late answers. -/
 namespace Tahoe.UploadDecision
+open Tahoe.Happiness (rel)
 
-def shnums (l : List (Nat × Nat)) : List Nat := l.map (·.1)
-
-theorem mem_shnums_filter (l : List (Nat × Nat)) (sh x : Nat) :
-    x ∈ shnums (l.filter (fun a => a.1 != sh)) ↔ x ∈ shnums l ∧ x ≠ sh := by
-  simp only [shnums, List.mem_map, List.mem_filter]
-  constructor
-  · rintro ⟨a, ⟨ha, hne⟩, rfl⟩; exact ⟨⟨a, ha, rfl⟩, by simpa using hne⟩
-  · rintro ⟨⟨a, ha, rfl⟩, hne⟩; exact ⟨a, ⟨ha, by simpa using hne⟩, rfl⟩
-
-theorem lookup_some_mem (l : List (Nat × Nat)) (sh p : Nat) (h : l.lookup sh = some p) : sh ∈ shnums l := by
-  induction l with
-  | nil => simp at h
-  | cons a rest ih =>
-    obtain ⟨a1, a2⟩ := a
-    simp only [List.lookup_cons] at h
-    split at h
-    · rename_i heq; simp only [shnums, List.map_cons, List.mem_cons]; left; simpa using heq
-    · simp only [shnums, List.map_cons, List.mem_cons]; right; exact ih h
-
-theorem lookup_none_not_mem (l : List (Nat × Nat)) (sh : Nat) (h : l.lookup sh = none) : sh ∉ shnums l := by
-  induction l with
-  | nil => simp [shnums]
-  | cons a rest ih =>
-    obtain ⟨a1, a2⟩ := a
-    simp only [List.lookup_cons] at h
-    split at h
-    · simp at h
-    · rename_i hne
-      simp only [shnums, List.map_cons, List.mem_cons, not_or]
-      exact ⟨by simpa using hne, ih h⟩
-
-/-- the state invariant while the upload is still going (no error raised so far) -/
-structure Inv (hp : Sharemap → Nat) (happy : Nat) (alloc : List (Nat × Nat)) (e : Enc) : Prop where
-  happyEnough : happy ≤ hp e.servermap
+/-- bookkeeping that holds at every point of every run (before and after a raise) -/
+structure Core (alloc : List (Nat × Nat)) (e : Enc) : Prop where
   failedGone : ∀ sh ∈ e.failedEver, sh ∉ shnums e.landlords
+  holesFailed : ∀ sh ∈ e.holes, sh ∈ e.failedEver
+  flushFailedFailed : ∀ sh ∈ e.flushFailed, sh ∈ e.failedEver
   accounted : ∀ sh ∈ shnums alloc, sh ∈ shnums e.landlords ∨ sh ∈ e.aborted
   closedLive : ∀ sh ∈ e.closed, sh ∈ shnums e.landlords
+  closedCalled : ∀ sh ∈ e.closed, sh ∈ e.closeCalled
+  visClean : ∀ sh ∈ e.closeCalled, sh ∉ e.flushFailed → sh ∉ e.holes
+  survivors : e.landlords = alloc.filter (fun a => a.1 ∉ e.failedEver)
 
-/-- what holds once UploadUnhappinessError has been raised (after `err` aborted the rest) -/
-structure Failed (alloc : List (Nat × Nat)) (e : Enc) : Prop where
-  allAborted : ∀ sh ∈ shnums alloc, sh ∈ e.aborted
-  closedClean : ∀ sh ∈ e.closed, sh ∉ e.failedEver
+/-- bookkeeping + layout (the layout part under the dict hypotheses on the inputs) -/
+structure St (pre : Sharemap) (alloc : List (Nat × Nat)) (e : Enc) : Prop where
+  core : Core alloc e
+  lay : WFmap pre → (shnums alloc).Nodup → Lay pre alloc e
 
-theorem inv_closed_clean {hp happy alloc e} (h : Inv hp happy alloc e) : ∀ sh ∈ e.closed, sh ∉ e.failedEver :=
+/-- while the upload is still going (no error raised so far) -/
+structure Inv (hp : Sharemap → Nat) (happy : Nat) (pre : Sharemap) (alloc : List (Nat × Nat)) (e : Enc) : Prop where
+  st : St pre alloc e
+  happyEnough : happy ≤ hp e.servermap
+
+def AllAborted (alloc : List (Nat × Nat)) (e : Enc) : Prop := ∀ sh ∈ shnums alloc, sh ∈ e.aborted
+
+/-- at the moment UploadUnhappinessError has been raised (after `err` aborted the rest) -/
+structure Failed (hp : Sharemap → Nat) (happy : Nat) (pre : Sharemap) (alloc : List (Nat × Nat)) (e : Enc) : Prop where
+  st : St pre alloc e
+  allAborted : AllAborted alloc e
+  unhappyNow : hp e.servermap < happy
+
+/-- in the close phase: close() has been called on every landlord still in use -/
+def Live (e : Enc) : Prop := ∀ sh ∈ shnums e.landlords, sh ∈ e.closeCalled
+
+theorem core_landlords_nodup {alloc e} (h : Core alloc e) (hn : (shnums alloc).Nodup) : (shnums e.landlords).Nodup := by
+  rw [h.survivors]
+  exact (List.Sublist.map _ List.filter_sublist).nodup hn
+
+theorem core_landlords_sub {alloc e} (h : Core alloc e) : ∀ a ∈ e.landlords, a ∈ alloc := by
+  intro a ha; rw [h.survivors] at ha; exact (List.mem_filter.mp ha).1
+
+theorem core_closed_clean {alloc e} (h : Core alloc e) : ∀ sh ∈ e.closed, sh ∉ e.failedEver :=
   fun sh hc hf => h.failedGone sh hf (h.closedLive sh hc)
 
-theorem removeShareholder_spec (hp : Sharemap → Nat) (happy : Nat) (alloc : List (Nat × Nat)) (e : Enc) (sh : Nat)
-    (h : Inv hp happy alloc e) (hnc : sh ∉ e.closed) :
-    ((removeShareholder hp happy e sh).2 = false → Inv hp happy alloc (removeShareholder hp happy e sh).1) ∧
-    ((removeShareholder hp happy e sh).2 = true → Failed alloc (abortAll (removeShareholder hp happy e sh).1)) := by
-  unfold removeShareholder
+/-- every acknowledged close is among the shares that may be visible -/
+theorem core_closed_mayBeVisible {alloc e} (h : Core alloc e) : ∀ sh ∈ e.closed, sh ∈ e.mayBeVisible := by
+  intro sh hc
+  simp only [Enc.mayBeVisible, List.mem_filter, decide_eq_true_eq]
+  exact ⟨h.closedCalled sh hc, fun hf => core_closed_clean h sh hc (h.flushFailedFailed sh hf)⟩
+
+theorem st_initial (pre : Sharemap) (alloc : List (Nat × Nat)) :
+    St pre alloc { landlords := alloc, servermap := mergeTrackers pre alloc } :=
+  ⟨⟨by simp, by simp, by simp, fun sh hsh => Or.inl hsh, by simp, by simp, by simp,
+    (List.filter_eq_self.mpr (by simp)).symm⟩,
+   fun hw _ => lay_initial pre alloc hw⟩
+
+theorem st_drop (pre : Sharemap) (alloc : List (Nat × Nat)) (e : Enc) (sh : Nat) (k : FailKind)
+    (h : St pre alloc e) (hnc : sh ∉ e.closed) (hk : k = .write → sh ∉ e.closeCalled) :
+    St pre alloc (dropShareholder e sh k) := by
+  refine ⟨?_, fun hw hn => lay_drop pre alloc e sh k (h.lay hw hn) (core_landlords_nodup h.core hn)
+    (core_landlords_sub h.core)⟩
+  have hc := h.core
+  unfold dropShareholder
   cases hl : e.landlords.lookup sh with
-  | none =>
-    simp only
-    constructor
-    · intro hr
-      exact ⟨by simpa using hr, h.failedGone, h.accounted, h.closedLive⟩
-    · intro _
-      refine ⟨?_, ?_⟩
-      · intro x hx
-        simp only [abortAll, List.mem_append]
-        rcases h.accounted x hx with h1 | h1
-        · right; exact h1
-        · left; exact h1
-      · intro x hx; simp only [abortAll] at hx ⊢; exact inv_closed_clean h x hx
+  | none => exact hc
   | some peer =>
     simp only
-    have hsh : sh ∈ shnums e.landlords := lookup_some_mem _ _ _ hl
-    constructor
-    · intro hr
-      refine ⟨by simpa using hr, ?_, ?_, ?_⟩
-      · intro x hx
-        simp only [List.mem_append, List.mem_singleton] at hx
-        rw [mem_shnums_filter]
-        rcases hx with hx | hx
-        · exact fun hc => h.failedGone x hx hc.1
-        · exact fun hc => hc.2 hx
-      · intro x hx
-        rw [mem_shnums_filter]
-        simp only [List.mem_append, List.mem_singleton]
-        rcases h.accounted x hx with h1 | h1
-        · by_cases hxs : x = sh
-          · right; right; exact hxs
-          · left; exact ⟨h1, hxs⟩
-        · right; left; exact h1
-      · intro x hx
-        rw [mem_shnums_filter]
-        exact ⟨h.closedLive x hx, fun hxs => hnc (hxs ▸ hx)⟩
-    · intro _
-      refine ⟨?_, ?_⟩
-      · intro x hx
-        simp only [abortAll, List.mem_append, List.mem_singleton]
-        rcases h.accounted x hx with h1 | h1
-        · by_cases hxs : x = sh
-          · left; right; exact hxs
-          · right
-            have : x ∈ shnums (e.landlords.filter (fun a => a.1 != sh)) := (mem_shnums_filter _ _ _).2 ⟨h1, hxs⟩
-            simpa [shnums] using this
-        · left; left; exact h1
-      · intro x hx
-        simp only [abortAll] at hx ⊢
-        simp only [List.mem_append, List.mem_singleton, not_or]
-        exact ⟨inv_closed_clean h x hx, fun hxs => hnc (hxs ▸ hx)⟩
+    refine ⟨?_, ?_, ?_, ?_, ?_, hc.closedCalled, ?_, ?_⟩
+    · intro x hx
+      simp only [List.mem_append, List.mem_singleton] at hx
+      rw [mem_shnums_filter]
+      rcases hx with hx | hx
+      · exact fun hcx => hc.failedGone x hx hcx.1
+      · exact fun hcx => hcx.2 hx
+    · intro x hx
+      have := hc.holesFailed x
+      cases k <;> simp at hx ⊢ <;> grind
+    · intro x hx
+      have := hc.flushFailedFailed x
+      cases k <;> simp at hx ⊢ <;> grind
+    · intro x hx
+      rw [mem_shnums_filter]
+      simp only [List.mem_append, List.mem_singleton]
+      rcases hc.accounted x hx with h1 | h1
+      · by_cases hxs : x = sh
+        · right; right; exact hxs
+        · left; exact ⟨h1, hxs⟩
+      · right; left; exact h1
+    · intro x hx
+      rw [mem_shnums_filter]
+      exact ⟨hc.closedLive x hx, fun hxs => hnc (hxs ▸ hx)⟩
+    · intro x hx hnf
+      cases k with
+      | closeCall => simpa using hc.visClean x hx (by simpa using hnf)
+      | write =>
+        have hxs : x ≠ sh := fun hxs => hk rfl (hxs ▸ hx)
+        have := hc.visClean x hx (by simpa using hnf)
+        simp [this, hxs]
+      | flush =>
+        simp only [if_true, List.mem_append, List.mem_singleton, not_or] at hnf
+        have := hc.visClean x hx hnf.1
+        simp [this, hnf.2]
+    · rw [hc.survivors, List.filter_filter]
+      apply List.filter_congr
+      intro a _
+      by_cases hh : a.1 = sh <;> simp [hh]
 
-theorem writePhase_spec (hp : Sharemap → Nat) (happy : Nat) (alloc : List (Nat × Nat)) (fs : List Nat) :
-    ∀ e, Inv hp happy alloc e → e.closed = [] →
-    ((writePhase hp happy e fs).2 = false → Inv hp happy alloc (writePhase hp happy e fs).1 ∧ (writePhase hp happy e fs).1.closed = []) ∧
-    ((writePhase hp happy e fs).2 = true → Failed alloc (writePhase hp happy e fs).1) := by
+theorem st_abortAll {pre alloc e} (h : St pre alloc e) : St pre alloc (abortAll e) :=
+  ⟨⟨h.core.failedGone, h.core.holesFailed, h.core.flushFailedFailed,
+    fun sh hsh => (h.core.accounted sh hsh).imp id (fun hx => List.mem_append_left _ hx),
+    h.core.closedLive, h.core.closedCalled, h.core.visClean, h.core.survivors⟩,
+   fun hw hn => (h.lay hw hn).congr rfl rfl⟩
+
+theorem allAborted_abortAll {pre alloc e} (h : St pre alloc e) : AllAborted alloc (abortAll e) := by
+  intro sh hsh
+  simp only [abortAll, List.mem_append]
+  exact (h.core.accounted sh hsh).symm.imp id id
+
+/-- a close acknowledgement for a landlord still in use -/
+theorem st_ok {pre alloc e} (h : St pre alloc e) (hl : Live e) (sh : Nat) (hs : (e.landlords.lookup sh).isSome) :
+    St pre alloc { e with closed := e.closed ++ [sh] } := by
+  have hmem : sh ∈ shnums e.landlords := by
+    cases hlk : e.landlords.lookup sh with
+    | none => simp [hlk] at hs
+    | some p => exact lookup_some_mem _ _ _ hlk
+  refine ⟨⟨h.core.failedGone, h.core.holesFailed, h.core.flushFailedFailed, h.core.accounted, ?_, ?_,
+    h.core.visClean, h.core.survivors⟩, fun hw hn => (h.lay hw hn).congr rfl rfl⟩
+  · intro x hx
+    simp only [List.mem_append, List.mem_singleton] at hx
+    rcases hx with hx | rfl
+    · exact h.core.closedLive x hx
+    · exact hmem
+  · intro x hx
+    simp only [List.mem_append, List.mem_singleton] at hx
+    rcases hx with hx | rfl
+    · exact h.core.closedCalled x hx
+    · exact hl x hmem
+
+theorem live_drop {e : Enc} (hl : Live e) (sh : Nat) (k : FailKind) : Live (dropShareholder e sh k) := by
+  unfold dropShareholder
+  cases hlk : e.landlords.lookup sh with
+  | none => exact hl
+  | some peer =>
+    intro x hx
+    simp only at hx
+    rw [mem_shnums_filter] at hx
+    exact hl x hx.1
+
+theorem removeShareholder_spec (hp : Sharemap → Nat) (happy : Nat) (pre : Sharemap) (alloc : List (Nat × Nat))
+    (e : Enc) (sh : Nat) (k : FailKind)
+    (h : Inv hp happy pre alloc e) (hnc : sh ∉ e.closed) (hk : k = .write → sh ∉ e.closeCalled) :
+    ((removeShareholder hp happy e sh k).2 = false → Inv hp happy pre alloc (removeShareholder hp happy e sh k).1) ∧
+    ((removeShareholder hp happy e sh k).2 = true →
+      Failed hp happy pre alloc (abortAll (removeShareholder hp happy e sh k).1)) := by
+  have hst := st_drop pre alloc e sh k h.st hnc hk
+  simp only [removeShareholder]
+  constructor
+  · intro hr
+    exact ⟨hst, by simpa using hr⟩
+  · intro hr
+    exact ⟨st_abortAll hst, allAborted_abortAll hst, by simpa [abortAll] using hr⟩
+
+theorem writePhase_spec (hp : Sharemap → Nat) (happy : Nat) (pre : Sharemap) (alloc : List (Nat × Nat)) (fs : List Nat) :
+    ∀ e, Inv hp happy pre alloc e → e.closed = [] → e.closeCalled = [] →
+    ((writePhase hp happy e fs).2 = false → Inv hp happy pre alloc (writePhase hp happy e fs).1 ∧
+        (writePhase hp happy e fs).1.closed = [] ∧ (writePhase hp happy e fs).1.closeCalled = []) ∧
+    ((writePhase hp happy e fs).2 = true → Failed hp happy pre alloc (writePhase hp happy e fs).1) := by
   induction fs with
-  | nil => intro e h hc; simp [writePhase, h, hc]
+  | nil => intro e h hc hcc; simp [writePhase, h, hc, hcc]
   | cons sh rest ih =>
-    intro e h hc
-    have hs := removeShareholder_spec hp happy alloc e sh h (by simp [hc])
+    intro e h hc hcc
+    have hs := removeShareholder_spec hp happy pre alloc e sh .write h (by simp [hc]) (by simp [hcc])
     simp only [writePhase]
-    cases hr : (removeShareholder hp happy e sh).2 with
+    cases hr : (removeShareholder hp happy e sh .write).2 with
     | true =>
-      have : removeShareholder hp happy e sh = ((removeShareholder hp happy e sh).1, true) := by rw [← hr]
+      have : removeShareholder hp happy e sh .write = ((removeShareholder hp happy e sh .write).1, true) := by rw [← hr]
       rw [this]; simp only [if_true]
       exact ⟨by simp, fun _ => hs.2 hr⟩
     | false =>
-      have : removeShareholder hp happy e sh = ((removeShareholder hp happy e sh).1, false) := by rw [← hr]
+      have : removeShareholder hp happy e sh .write = ((removeShareholder hp happy e sh .write).1, false) := by rw [← hr]
       rw [this]; simp only [Bool.false_eq_true, if_false]
-      have hc1 : (removeShareholder hp happy e sh).1.closed = [] := by
-        unfold removeShareholder; split <;> simp [hc]
-      exact ih _ (hs.1 hr) hc1
+      have hc1 : (removeShareholder hp happy e sh .write).1.closed = [] := by
+        simp only [removeShareholder, dropShareholder]; split <;> simp [hc]
+      have hcc1 : (removeShareholder hp happy e sh .write).1.closeCalled = [] := by
+        simp only [removeShareholder, dropShareholder]; split <;> simp [hcc]
+      exact ih _ (hs.1 hr) hc1 hcc1
 
-theorem writePhases_spec (hp : Sharemap → Nat) (happy : Nat) (alloc : List (Nat × Nat)) (phs : List (List Nat)) :
-    ∀ e, Inv hp happy alloc e → e.closed = [] →
-    ((writePhases hp happy e phs).2 = false → Inv hp happy alloc (writePhases hp happy e phs).1) ∧
-    ((writePhases hp happy e phs).2 = true → Failed alloc (writePhases hp happy e phs).1) := by
+theorem writePhases_spec (hp : Sharemap → Nat) (happy : Nat) (pre : Sharemap) (alloc : List (Nat × Nat)) (phs : List (List Nat)) :
+    ∀ e, Inv hp happy pre alloc e → e.closed = [] → e.closeCalled = [] →
+    ((writePhases hp happy e phs).2 = false → Inv hp happy pre alloc (writePhases hp happy e phs).1 ∧
+        (writePhases hp happy e phs).1.closed = []) ∧
+    ((writePhases hp happy e phs).2 = true → Failed hp happy pre alloc (writePhases hp happy e phs).1) := by
   induction phs with
-  | nil => intro e h _; simp [writePhases, h]
+  | nil => intro e h hc _; simp [writePhases, h, hc]
   | cons ph rest ih =>
-    intro e h hc
-    have hs := writePhase_spec hp happy alloc ph e h hc
+    intro e h hc hcc
+    have hs := writePhase_spec hp happy pre alloc ph e h hc hcc
     simp only [writePhases]
     cases hr : (writePhase hp happy e ph).2 with
     | true =>
@@ -146,47 +208,187 @@ theorem writePhases_spec (hp : Sharemap → Nat) (happy : Nat) (alloc : List (Na
     | false =>
       have : writePhase hp happy e ph = ((writePhase hp happy e ph).1, false) := by rw [← hr]
       rw [this]; simp only [Bool.false_eq_true, if_false]
-      exact ih _ (hs.1 hr).1 (hs.1 hr).2
+      exact ih _ (hs.1 hr).1 (hs.1 hr).2.1 (hs.1 hr).2.2
 
-theorem closePhase_spec (hp : Sharemap → Nat) (happy : Nat) (alloc : List (Nat × Nat)) (evs : List CloseEv) :
-    ∀ e, Inv hp happy alloc e →
-    ((closePhase hp happy e evs).2 = false → Inv hp happy alloc (closePhase hp happy e evs).1) ∧
-    ((closePhase hp happy e evs).2 = true → Failed alloc (closePhase hp happy e evs).1) := by
-  induction evs with
-  | nil => intro e h; simp [closePhase, h]
+/-- answers after the raise keep the bookkeeping and the aborts -/
+theorem drainClose_spec (pre : Sharemap) (alloc : List (Nat × Nat)) (late : List CloseEv) :
+    ∀ e, St pre alloc e → AllAborted alloc e → Live e →
+      St pre alloc (drainClose e late) ∧ AllAborted alloc (drainClose e late) := by
+  induction late with
+  | nil => intro e h ha _; exact ⟨h, ha⟩
   | cons ev rest ih =>
-    intro e h
+    intro e h ha hl
+    have hdrop : ∀ sh k, sh ∉ e.closed → k ≠ .write →
+        St pre alloc (drainClose (dropShareholder e sh k) rest) ∧
+        AllAborted alloc (drainClose (dropShareholder e sh k) rest) := by
+      intro sh k hnc hk
+      refine ih _ (st_drop pre alloc e sh k h hnc (fun hh => absurd hh hk)) ?_ (live_drop hl sh k)
+      intro x hx
+      have := ha x hx
+      unfold dropShareholder
+      split
+      · simp only [List.mem_append]; exact Or.inl this
+      · exact this
+    cases ev with
+    | ok sh =>
+      simp only [drainClose]
+      split
+      · rename_i hcond
+        exact ih _ (st_ok h hl sh hcond.1) ha hl
+      · exact ih e h ha hl
+    | fail sh =>
+      simp only [drainClose]
+      split
+      · exact ih e h ha hl
+      · rename_i hnc; exact hdrop sh .closeCall hnc (by simp)
+    | flushFail sh =>
+      simp only [drainClose]
+      split
+      · exact ih e h ha hl
+      · rename_i hnc; exact hdrop sh .flush hnc (by simp)
+
+theorem closePhase_spec (hp : Sharemap → Nat) (happy : Nat) (pre : Sharemap) (alloc : List (Nat × Nat)) (evs : List CloseEv) :
+    ∀ e, Inv hp happy pre alloc e → Live e →
+    ((closePhase hp happy e evs).2 = none →
+        Inv hp happy pre alloc (closePhase hp happy e evs).1 ∧ Live (closePhase hp happy e evs).1) ∧
+    (∀ late, (closePhase hp happy e evs).2 = some late →
+        Failed hp happy pre alloc (closePhase hp happy e evs).1 ∧ Live (closePhase hp happy e evs).1) := by
+  induction evs with
+  | nil => intro e h hl; simp [closePhase, h, hl]
+  | cons ev rest ih =>
+    intro e h hl
+    have hfail : ∀ sh k, sh ∉ e.closed → k ≠ .write →
+        (((let (e1, raised) := removeShareholder hp happy e sh k
+           if raised then (abortAll e1, some rest) else closePhase hp happy e1 rest).2 = none →
+          Inv hp happy pre alloc (let (e1, raised) := removeShareholder hp happy e sh k
+           if raised then (abortAll e1, some rest) else closePhase hp happy e1 rest).1 ∧
+          Live (let (e1, raised) := removeShareholder hp happy e sh k
+           if raised then (abortAll e1, some rest) else closePhase hp happy e1 rest).1) ∧
+         (∀ late, (let (e1, raised) := removeShareholder hp happy e sh k
+           if raised then (abortAll e1, some rest) else closePhase hp happy e1 rest).2 = some late →
+          Failed hp happy pre alloc (let (e1, raised) := removeShareholder hp happy e sh k
+           if raised then (abortAll e1, some rest) else closePhase hp happy e1 rest).1 ∧
+          Live (let (e1, raised) := removeShareholder hp happy e sh k
+           if raised then (abortAll e1, some rest) else closePhase hp happy e1 rest).1)) := by
+      intro sh k hnc hk
+      have hs := removeShareholder_spec hp happy pre alloc e sh k h hnc (fun hh => absurd hh hk)
+      have hl1 : Live (removeShareholder hp happy e sh k).1 := live_drop hl sh k
+      cases hr : (removeShareholder hp happy e sh k).2 with
+      | true =>
+        have : removeShareholder hp happy e sh k = ((removeShareholder hp happy e sh k).1, true) := by rw [← hr]
+        rw [this]; simp only [if_true]
+        exact ⟨by simp, fun _ _ => ⟨hs.2 hr, hl1⟩⟩
+      | false =>
+        have : removeShareholder hp happy e sh k = ((removeShareholder hp happy e sh k).1, false) := by rw [← hr]
+        rw [this]; simp only [Bool.false_eq_true, if_false]
+        exact ih _ (hs.1 hr) hl1
     cases ev with
     | ok sh =>
       simp only [closePhase]
       split
       · rename_i hcond
-        apply ih
-        refine ⟨h.happyEnough, h.failedGone, h.accounted, ?_⟩
-        intro x hx
-        simp only [List.mem_append, List.mem_singleton] at hx
-        rcases hx with hx | hx
-        · exact h.closedLive x hx
-        · subst hx
-          obtain ⟨hsome, _⟩ := hcond
-          cases hl : e.landlords.lookup x with
-          | none => simp [hl] at hsome
-          | some p => exact lookup_some_mem _ _ _ hl
-      · exact ih e h
+        exact ih _ ⟨st_ok h.st hl sh hcond.1, h.happyEnough⟩ hl
+      · exact ih e h hl
     | fail sh =>
       simp only [closePhase]
       split
-      · exact ih e h
-      · rename_i hnc
-        have hs := removeShareholder_spec hp happy alloc e sh h hnc
-        cases hr : (removeShareholder hp happy e sh).2 with
-        | true =>
-          have : removeShareholder hp happy e sh = ((removeShareholder hp happy e sh).1, true) := by rw [← hr]
-          rw [this]; simp only [if_true]
-          exact ⟨by simp, fun _ => hs.2 hr⟩
-        | false =>
-          have : removeShareholder hp happy e sh = ((removeShareholder hp happy e sh).1, false) := by rw [← hr]
-          rw [this]; simp only [Bool.false_eq_true, if_false]
-          exact ih _ (hs.1 hr)
+      · exact ih e h hl
+      · rename_i hnc; exact hfail sh .closeCall hnc (by simp)
+    | flushFail sh =>
+      simp only [closePhase]
+      split
+      · exact ih e h hl
+      · rename_i hnc; exact hfail sh .flush hnc (by simp)
+
+/-- what is true of every run -/
+theorem upload_spec (hp : Sharemap → Nat) (happy : Nat) (pre : Sharemap) (alloc : List (Nat × Nat))
+    (phases : List (List Nat)) (closeEvs : List CloseEv) :
+    let r := upload hp happy pre alloc phases closeEvs
+    (∀ placed sm, r.outcome = .success placed sm →
+        Inv hp happy pre alloc r.final ∧ r.verdict = r.final ∧ sm = r.final.servermap ∧
+        placed = shnums r.final.landlords ∧ (∀ sh ∈ placed, sh ∈ r.final.closed) ∧
+        r.results = some (uploadResults pre alloc placed) ∧ (shnums alloc).Nodup) ∧
+    (r.outcome = .unhappy →
+        Failed hp happy pre alloc r.verdict ∧ St pre alloc r.final ∧ AllAborted alloc r.final) ∧
+    (r.outcome = .assertion → ¬ (shnums alloc).Nodup ∧ happy ≤ hp (mergeTrackers pre alloc) ∧
+        r.final = { landlords := alloc, servermap := mergeTrackers pre alloc }) := by
+  intro r
+  have hst0 := st_initial pre alloc
+  simp only [r, upload]
+  split
+  · -- selector failure: `_failed` aborts every tracker
+    rename_i hsel
+    refine ⟨by intro _ _ h; simp at h, fun _ => ?_, by intro h; simp at h⟩
+    exact ⟨⟨st_abortAll hst0, allAborted_abortAll hst0, by simpa [abortAll] using hsel⟩,
+      st_abortAll hst0, allAborted_abortAll hst0⟩
+  · rename_i hsel
+    split
+    · rename_i hdup
+      refine ⟨by intro _ _ h; simp at h, by intro h; simp at h, fun _ => ⟨hdup, by omega, rfl⟩⟩
+    · rename_i hnd
+      have hnd' : (shnums alloc).Nodup := by simpa [shnums] using hnd
+      have h0 : Inv hp happy pre alloc { landlords := alloc, servermap := mergeTrackers pre alloc } :=
+        ⟨hst0, by show happy ≤ hp (mergeTrackers pre alloc); omega⟩
+      have h1 := writePhases_spec hp happy pre alloc phases _ h0 rfl rfl
+      cases hr1 : (writePhases hp happy { landlords := alloc, servermap := mergeTrackers pre alloc } phases).2 with
+      | true =>
+        have : writePhases hp happy { landlords := alloc, servermap := mergeTrackers pre alloc } phases =
+            ((writePhases hp happy { landlords := alloc, servermap := mergeTrackers pre alloc } phases).1, true) := by rw [← hr1]
+        rw [this]; simp only [if_true]
+        have hf := h1.2 hr1
+        exact ⟨by intro _ _ h; simp at h, fun _ => ⟨hf, hf.st, hf.allAborted⟩, by intro h; simp at h⟩
+      | false =>
+        have : writePhases hp happy { landlords := alloc, servermap := mergeTrackers pre alloc } phases =
+            ((writePhases hp happy { landlords := alloc, servermap := mergeTrackers pre alloc } phases).1, false) := by rw [← hr1]
+        rw [this]; simp only [Bool.false_eq_true, if_false]
+        obtain ⟨hi1, hcl1⟩ := h1.1 hr1
+        generalize (writePhases hp happy { landlords := alloc, servermap := mergeTrackers pre alloc } phases).1 = e1 at hi1 hcl1 ⊢
+        -- close_all_shareholders: close() is called on every landlord
+        have hi1c : Inv hp happy pre alloc { e1 with closeCalled := e1.landlords.map (·.1) } := by
+          refine ⟨⟨⟨hi1.st.core.failedGone, hi1.st.core.holesFailed, hi1.st.core.flushFailedFailed,
+            hi1.st.core.accounted, hi1.st.core.closedLive, by simp [hcl1], ?_, hi1.st.core.survivors⟩,
+            fun hw hn => (hi1.st.lay hw hn).congr rfl rfl⟩, hi1.happyEnough⟩
+          intro x hx _ hh
+          exact hi1.st.core.failedGone x (hi1.st.core.holesFailed x hh) hx
+        have hl1c : Live { e1 with closeCalled := e1.landlords.map (·.1) } := fun x hx => hx
+        have h2 := closePhase_spec hp happy pre alloc closeEvs _ hi1c hl1c
+        generalize ({ e1 with closeCalled := e1.landlords.map (·.1) } : Enc) = e1c at h2 ⊢
+        cases hcp : closePhase hp happy e1c closeEvs with
+        | mk e2 o =>
+          rw [hcp] at h2
+          cases o with
+          | some late =>
+            simp only
+            obtain ⟨hf, hl2⟩ := h2.2 late rfl
+            have hd := drainClose_spec pre alloc late e2 hf.st hf.allAborted hl2
+            exact ⟨by intro _ _ h; simp at h, fun _ => ⟨hf, hd.1, hd.2⟩, by intro h; simp at h⟩
+          | none =>
+            simp only
+            obtain ⟨hi, hl2⟩ := h2.1 rfl
+            simp only at hi hl2
+            refine ⟨?_, by intro h; simp at h, by intro h; simp at h⟩
+            intro placed sm hout
+            simp only [Outcome.success.injEq] at hout
+            obtain ⟨hp1, hp2⟩ := hout
+            subst hp1 hp2
+            refine ⟨⟨⟨⟨hi.st.core.failedGone, hi.st.core.holesFailed, hi.st.core.flushFailedFailed,
+              hi.st.core.accounted, ?_, ?_, hi.st.core.visClean, hi.st.core.survivors⟩,
+              fun hw hn => (hi.st.lay hw hn).congr rfl rfl⟩, hi.happyEnough⟩, by first | rfl | trivial,
+              by first | rfl | trivial, by first | rfl | trivial, ?_, by first | rfl | trivial, hnd'⟩
+            · intro x hx
+              simp only [List.mem_append, List.mem_filter] at hx
+              rcases hx with hx | hx
+              · exact hi.st.core.closedLive x hx
+              · exact hx.1
+            · intro x hx
+              simp only [List.mem_append, List.mem_filter] at hx
+              rcases hx with hx | hx
+              · exact hi.st.core.closedCalled x hx
+              · exact hl2 x hx.1
+            · intro sh hsh
+              simp only [List.mem_append, List.mem_filter]
+              by_cases hc : sh ∈ e2.closed
+              · left; exact hc
+              · right; exact ⟨hsh, by simpa using hc⟩
 
 end Tahoe.UploadDecision
